@@ -299,6 +299,8 @@ pub fn build_by_item_impl(attr: TokenStream, item_impl: &ItemImpl) -> Result<Tok
         }
     }
 
+    // The lint level attributes of the user's impl cover the impls derived from it.
+    let ts = crate::item_type::with_lint_attrs(ts, &item_impl.attrs);
     if args.dump {
         bail!(_, "{}", format!("dump:\n{ts}"));
     }
